@@ -430,7 +430,7 @@ class Large(Component):
     rule = "'must' set non-empty and a token-sharing pair outside 'may'"
 
     def examples(self, tier):
-        return 20 if tier == "quick" else 80
+        return 25 if tier == "quick" else 300
 
     def strategy(self, tier):
         return large_case(tier)
